@@ -185,6 +185,36 @@ class Model:
                 if isinstance(n, ast.ClassDef):
                     yield rel, q, n
 
+    def stores(self, rel: str | None = None):
+        """(rel, qualified name of the enclosing def or '', target, statement) for every store in the package (or one module),
+        not repeating extracted helpers that were inlined at their call sites."""
+        from .astutil import stores_in
+        for r, f in self.files.items():
+            if rel is not None and r != rel:
+                continue
+            skip = set()
+            for q in f.inlined_artefacts:
+                d = f.defs[q]
+                for n in ast.walk(d):
+                    skip.add(id(n))
+            for t, st in stores_in(f.tree, local=False):
+                if id(st) in skip:
+                    continue
+                yield r, getattr(st, "_q", "") or "", t, st
+
+    def walk(self, rel: str | None = None):
+        """ast.walk over the package (or one module) without the bodies of inlined extracted helpers."""
+        for r, f in self.files.items():
+            if rel is not None and r != rel:
+                continue
+            skip = set()
+            for q in f.inlined_artefacts:
+                for n in ast.walk(f.defs[q]):
+                    skip.add(id(n))
+            for n in ast.walk(f.tree):
+                if id(n) not in skip:
+                    yield n
+
     def all_nodes(self, rel: str | None = None):
         for r, f in self.files.items():
             if rel is None or r == rel:
